@@ -3,7 +3,7 @@
    of the body, the re-parse and the inert-template wrapping of deleted scripts are checked per
    input by the document-level observer. *)
 From Coq Require Import List NArith Arith Bool String.
-From WMD Require Import Gen.Tables Lib.Str Lib.PyChars Lib.Escape Lib.Difflib Model.RenderTokens Model.RenderMerge
+From WMD Require Import Gen.Tables Lib.Str Lib.PyChars Lib.Escape Lib.Difflib Model.RenderTokens Model.RenderMerge Model.RenderLabelled
      Proofs.EscapeProofs Proofs.MergeProofs Proofs.TokenProofs Proofs.AssembleProofs Proofs.RenderProofs
      Model.LinksHtml Model.RenderDoc Proofs.RenderDocProofs.
 Import ListNotations.
